@@ -249,7 +249,12 @@ fn x86(path: &str, tracepath: &str) {
             let kind = if built { "walk-built" } else { "walk-any" };
             let detail = json!({"arch": "x86", "mem": c["mem"], "rule": c["rule"], "context": f0, "model_frames": model,
                                 "real_frames": obs.as_ref().ok().map(|o| o.frames.iter().map(|f| json!({"ip": f.ip, "instr": f.instr, "sp": f.sp, "regs": format!("{:?}", f.regs), "psize": f.psize, "trust": f.trust})).collect::<Vec<_>>())});
-            if built { rep.mismatch(&format!("{}:x86:{}", kind, d), detail); } else { rep.drift(json!({"what": d, "detail": detail})); }
+            // VERIF_STRICT_RULES: rule shapes for which the model is the documented semantics of STACK CFI evaluation through a real
+            // 32-bit context (C06): there a disagreement is a violation, not drift
+            let strict = std::env::var("VERIF_STRICT_RULES").map(|v| v.split(',').any(|r| r == c["rule"].as_str().unwrap())).unwrap_or(false);
+            if built { rep.mismatch(&format!("{}:x86:{}", kind, d), detail); }
+            else if strict { rep.mismatch(&format!("cfi-real-context:x86:{}:{}", c["rule"].as_str().unwrap(), d.split('@').next().unwrap()), detail); }
+            else { rep.drift(json!({"what": d, "detail": detail})); }
         } else if built && rep.samples.len() < 5 && model.len() >= 4 {
             rep.sample(json!({"arch": "x86", "rule": c["rule"], "stack_words": c["mem"], "chain": c["expect"]}));
         }
